@@ -91,7 +91,7 @@ func v15Scalar(name string) map[string]interface{} { return v15Type("SCALAR", na
 func VerifIntrospect() {
 	shape := v15Shapes[verifChoice("shape", verifParam("shapes", len(v15Shapes)))]
 	argShape := v15Shapes[verifChoice("argshape", 4)]
-	defKind := verifChoice("default", 8) // 0 none, 1 Int literal, 2 String literal, 3 list literal, 4 object literal, 5 number for a custom scalar, 6 negative Int, 7 negative Float with exponent
+	defKind := verifChoice("default", 9) // 8: null for a String argument; 0 none, 1 Int literal, 2 String literal, 3 list literal, 4 object literal, 5 number for a custom scalar, 6 negative Int, 7 negative Float with exponent
 	if defKind >= 3 && argShape != "" {
 		verifAssume(false) // these defaults fix the argument's type themselves
 	}
@@ -132,6 +132,10 @@ func VerifIntrospect() {
 	case 7:
 		argLeaf = "Float"
 		argDef, wantDefault = "-1.5e3", "-1.5e3"
+	case 8:
+		// an explicit null default of a String argument is the null literal, not the string "null"
+		argLeaf = "String"
+		argDef, wantDefault = "null", "null"
 	}
 	args := []interface{}{v15InputValue("a", argShape, argLeaf, argDef)}
 	// the enum-typed positions with a default are nullable (E = A) or non-null (E! = A)
@@ -195,7 +199,7 @@ func VerifIntrospect() {
 	}
 	var dargs []interface{}
 	if dirArgs == 1 {
-		dargs = []interface{}{v15InputValue("n", "", "Int", "1")}
+		dargs = []interface{}{v15InputValue("n", "", "Int", "1"), v15InputValue("e", enumShape, "E", "A")}
 	} else {
 		dargs = []interface{}{}
 	}
@@ -250,6 +254,9 @@ func VerifIntrospect() {
 	if defKind != 0 {
 		dv := f.Arguments[0].DefaultValue
 		verifAssert(dv != nil && strings.ReplaceAll(dv.String(), " ", "") == strings.ReplaceAll(wantDefault, " ", ""), "argument default values are reproduced")
+		if defKind == 8 && dv != nil {
+			verifAssert(dv.Kind == ast.NullValue, "a null default is the null literal")
+		}
 	} else {
 		verifAssert(f.Arguments[0].DefaultValue == nil, "no default is invented")
 	}
@@ -296,7 +303,10 @@ func VerifIntrospect() {
 	d := got.Directives["d"]
 	verifAssert(d != nil && len(d.Locations) == 2, "directives and their locations are reproduced")
 	if d != nil {
-		verifAssert(len(d.Arguments) == dirArgs, "directive arguments are reproduced")
+		verifAssert(len(d.Arguments) == 2*dirArgs, "directive arguments are reproduced")
+		if ea := d.Arguments.ForName("e"); dirArgs == 1 {
+			verifAssert(ea != nil && ea.DefaultValue != nil && ea.DefaultValue.Kind == ast.EnumValue && ea.DefaultValue.String() == "A", "an enum-typed directive argument default is an enum value")
+		}
 	}
 	verifAssert(got.Query != nil && got.Query.Name == "Query", "the query root is reproduced")
 	verifAssert((got.Mutation != nil) == withMutation, "the mutation root is reproduced")
